@@ -471,6 +471,9 @@ func c18sigs(s c18slice) []c18sig {
 	}
 	add(append([]reflect.Type{tInt}, cols...)...)
 	add(append([]reflect.Type{tInt64}, cols...)...)
+	// a context parameter in a non-leading position is an ordinary (mismatching) parameter
+	add(append(append([]reflect.Type{}, cols...), tCtx)...)
+	add(append([]reflect.Type{cols[0], tCtx}, cols[1:]...)...)
 	last := cols[len(cols)-1]
 	add(last, last)
 	add(last, last, last)
